@@ -293,6 +293,7 @@ KVALS = {
     "X": ['raw("a,b")', 'raw(",")', 'raw("-")'],
 }
 KTMP = {"S": '(%s + "")', "I": "(%s + 0)", "D": "(%s * 1.0)", "B": "(%s and true)", "X": "subraw(%s, 0)"}
+KNULL = {"S": "str()", "I": "int()", "D": "num()", "B": "bool()", "X": "raw()"}
 KTYPE = {"S": "string", "I": "integer", "D": "decimal", "B": "boolean", "X": "bytes"}
 KINDS = ("const", "var", "tmp", "elem", "item", "fret", "param")
 
@@ -308,6 +309,8 @@ def kprelude():
         out.append("kr%s = tup(%s);" % (t.lower(), ", ".join(vals)))
         for i, v in enumerate(vals):
             out.append("function f%s%d() return %s is begin return %s; end;" % (t.lower(), i, KTYPE[t], v))
+        # a null of the type, as a variable
+        out.append("kn%s = %s;" % (t.lower(), KNULL[t]))
     return " ".join(out)
 
 
@@ -326,6 +329,10 @@ def karg(t, slot, kind):
         return "kr%s@%d" % (tl, slot + 1)
     if kind == "fret":
         return "f%s%d()" % (tl, slot)
+    if kind == "nconst":
+        return KNULL[t]
+    if kind == "nvar":
+        return "kn%s" % tl
     raise ValueError(kind)
 
 
@@ -384,6 +391,20 @@ def kinds_gen(tier):
                            op_run("for kq in 1 to 2 loop print %s; end loop;" % e2), op_out(), op_dump()]
                     yield Case("k%d" % n, ops, {"kind": "kinds", "e": e2, "ref": ref2, "root": root, "sig": fmt % tuple(types) + suffix, "combo": "/".join(combo)})
                     n += 1
+            # one argument null (as constant, as variable) next to stored values in the other places: the answer (often null) must not be
+            # written into one of them
+            if arity >= 2 and not inplace:
+                for pnull in range(arity):
+                    for nk in ("nconst", "nvar"):
+                        for ok in ("var", "elem", "item"):
+                            combo = tuple(nk if i == pnull else ok for i in range(arity))
+                            e = fmt % tuple(karg(t, i, k) for i, (t, k) in enumerate(zip(types, combo)))
+                            ref = fmt % tuple(karg(t, i, "nconst" if i == pnull else "const") for i, t in enumerate(types))
+                            ops = [op_ctx(), op_run(pre), op_dump(), op_run("print %s;" % ref), op_out(), op_dump(),
+                                   op_run("print %s;" % e), op_out(), op_dump(),
+                                   op_run("for kq in 1 to 2 loop print %s; end loop;" % e), op_out(), op_dump()]
+                            yield Case("k%d" % n, ops, {"kind": "kinds", "e": e, "ref": ref, "root": None, "sig": fmt % tuple(types) + ":null@%d" % pnull, "combo": "/".join(combo)})
+                            n += 1
     return gen
 
 
